@@ -94,4 +94,12 @@ theorem decode_encode (m : Msg) (h : WF m) (rest : Bytes) :
     rw [decRecs_encode l h]
     rfl
 
+theorem wfRecBool_iff (d : AcTimerStatusData) : wfRecBool d = true ↔ WFRec d := by
+  simp only [wfRecBool, WFRec, Bool.and_eq_true, decide_eq_true_eq, wfStateBool_iff, and_assoc]
+
+theorem wfBool_iff (m : Msg) : wfBool m = true ↔ WF m := by
+  cases m with
+  | request => simp only [wfBool, WF]
+  | status l => simp only [wfBool, WF, List.all_eq_true, wfRecBool_iff]
+
 end PyAirtouch.Lemmas.At5C033
